@@ -276,6 +276,24 @@ Section Propagation.
   Qed.
 End Propagation.
 
+(* contexts whose hole is a statement hole need no hypothesis about the expression filler *)
+Lemma at_shole (Pe Ps : tctx -> Prop) :
+  (forall c, Ps c) ->
+  (forall C ctx, is_shole_e C = true -> at_e Pe Ps C ctx) /\ (forall C ctx, is_shole_s C = true -> at_s Pe Ps C ctx).
+Proof.
+  intros Hs.
+  assert (X : forall n, (forall C ctx, ectx_size C <= n -> is_shole_e C = true -> at_e Pe Ps C ctx) /\
+                        (forall C ctx, sctx_size C <= n -> is_shole_s C = true -> at_s Pe Ps C ctx)).
+  { induction n as [|n [IHe IHs]]; split; intros C ctx Hn Hh.
+    - destruct C; cbn in Hn; lia.
+    - destruct C; cbn in Hn; lia.
+    - destruct C; cbn [Ctx.at_e is_shole_e] in *; cbn [ectx_size] in Hn; try discriminate;
+        try (apply IHe; [lia|exact Hh]); try (apply IHs; [lia|exact Hh]).
+    - destruct C; cbn [Ctx.at_s is_shole_s] in *; cbn [sctx_size] in Hn; try apply Hs;
+        try (apply IHe; [lia|exact Hh]); try (apply IHs; [lia|exact Hh]). }
+  split; intros C ctx; [apply (proj1 (X (ectx_size C)))|apply (proj2 (X (sctx_size C)))]; lia.
+Qed.
+
 (* the verdict of typecheck *)
 Lemma typecheck_notok fuel vars stmts :
   (forall s, wf s -> notok (solve (kinds_of vars 1 (PositiveMap.empty varkind)) (gfix fuel)
